@@ -4,6 +4,7 @@ package stream
 
 import (
 	"github.com/rulego/streamsql/condition"
+	"github.com/rulego/streamsql/functions"
 	"github.com/rulego/streamsql/internal/zzverif"
 	"github.com/rulego/streamsql/logger"
 	"github.com/rulego/streamsql/metrics"
@@ -239,4 +240,62 @@ func VerifC05WhereChain() {
 	}
 	zzverif.ObserveB("emitted", res != nil)
 	zzverif.Assert((res != nil) == want, "row-emitted-iff-predicate-true")
+}
+
+// VerifC20Unnest: SELECT device, unnest(readings): the expansion step (real UnnestFunction.Execute +
+// DataProcessor.expandUnnestResults) produces one row per array element carrying the other projected
+// columns, and never writes into the caller's data - neither into the row nor into the objects nested
+// in the caller's array (an element that is an object is expanded into columns of a NEW row).
+func VerifC20Unnest() {
+	n := zzverif.Param("elems", 2)
+	s := &Stream{log: logger.NewDiscardLogger(), hasUnnestFunction: true}
+	dp := &DataProcessor{stream: s}
+	dev := int(int8(zzverif.NondetU64("dev", 8)))
+	elems := make([]any, n)
+	isObj := make([]bool, n)
+	vals := make([]int, n)
+	inner := make([]map[string]any, n)
+	for i := range elems {
+		vals[i] = int(int8(zzverif.NondetU64("v", 8)))
+		if zzverif.Choose("obj", 2) == 1 {
+			isObj[i] = true
+			inner[i] = map[string]any{"k": "temp", "v": vals[i]}
+			elems[i] = inner[i]
+		} else {
+			elems[i] = vals[i]
+		}
+	}
+	row := map[string]any{"device": dev, "readings": elems}
+	fn, ok := functions.Get("unnest")
+	if !ok {
+		panic("unnest not registered")
+	}
+	uv, err := fn.Execute(&functions.FunctionContext{Data: row}, []any{row["readings"]})
+	zzverif.Assert(err == nil, "unnest-no-error")
+	projected := map[string]any{"device": row["device"], "readings": uv}
+	out := dp.expandUnnestResults(projected, row)
+	zzverif.Assert(len(out) == n, "one-output-row-per-element")
+	if len(out) == n {
+		for i, r := range out {
+			d, dok := r["device"].(int)
+			zzverif.Assert(dok && d == dev, "expanded-row-carries-the-other-columns")
+			if isObj[i] {
+				v, vok := r["v"].(int)
+				zzverif.Assert(vok && v == vals[i] && r["k"] == "temp", "object-element-expands-into-columns")
+			} else {
+				v, vok := r["readings"].(int)
+				zzverif.Assert(vok && v == vals[i], "scalar-element-under-the-column-name")
+			}
+		}
+	}
+	// frame condition: the caller's row, array and nested objects are as they were
+	zzverif.Assert(len(row) == 2, "caller-row-keeps-its-keys")
+	arr, aok := row["readings"].([]any)
+	zzverif.Assert(aok && len(arr) == n, "caller-array-untouched")
+	for i := range elems {
+		if isObj[i] {
+			v, vok := inner[i]["v"].(int)
+			zzverif.Assert(len(inner[i]) == 2 && vok && v == vals[i] && inner[i]["k"] == "temp", "caller-nested-object-untouched")
+		}
+	}
 }
